@@ -64,7 +64,7 @@ FAMILIES = {
         "coq_modules": ["Json", "Crc", "Hlc", "Kv", "Store", "Trace", "Corr"],
         "in_type": "scase", "obs_type": "crash_obs",
         "corr": "crash_corr_ok", "chk": "chk_crash", "model": "crash_model",
-        "n": {"quick": 160, "thorough": 1200},
+        "n": {"quick": 240, "thorough": 1500},
         "shard": 4, "procs": 8,
     },
     "shut": {
